@@ -58,6 +58,7 @@ class UAIReader(object):
         self.variables = self.get_variables()
         self.domain = self.get_domain()
         self.edges = self.get_edges()
+        self.parents = self.get_parents()
         self.tables = self.get_tables()
 
     def get_grammar(self):
@@ -203,6 +204,28 @@ class UAIReader(object):
                 edges.extend(list(combinations(function_variables, 2)))
         return set(edges)
 
+    def get_parents(self):
+        """
+        Returns the parents of each variable of a Bayesian network in the
+        order in which the columns of its table are laid out (the reverse of
+        the order in which they are listed in the function scope).
+
+        Returns
+        -------
+        dict: dictionary with variables as keys and list of parents as values
+        """
+        parents = {}
+        if self.network_type == "BAYES":
+            for function in range(0, self.no_functions):
+                function_variables = self.grammar.parseString(self.network)[
+                    "fun_" + str(function)
+                ]
+                if isinstance(function_variables, int):
+                    function_variables = [function_variables]
+                function_variables = ["var_" + str(var) for var in function_variables]
+                parents[function_variables[-1]] = function_variables[-2::-1]
+        return parents
+
     def get_tables(self):
         """
         Returns list of tuple of child variable and CPD in case of Bayesian
@@ -270,7 +293,9 @@ class UAIReader(object):
                 states = int(self.domain[child_var])
                 values = np.fromiter(values, dtype=float)
                 values = values.reshape(states, values.size // states)
-                parents = list(model.predecessors(child_var))
+                # The writer lists the evidence variables of a CPD in reverse
+                # order followed by the variable itself.
+                parents = self.parents[child_var]
                 if len(parents) == 0:
                     tabular_cpds.append(TabularCPD(child_var, states, values))
                 else:
